@@ -122,7 +122,7 @@ type hLane struct {
 
 func hUnit(id string) string { return "u" + id }
 func hDesc(id string) string { return "the " + id }
-func hIsSync(id string) bool { return strings.HasPrefix(id, "s") }
+func hIsSync(id string) bool { return id[0] == 's' || id[0] == 't' } // SyncIds of the configurations: s, t
 
 func (l *hLane) kindOf(id string, seed int64) string {
 	k := int(seed) + l.c.Idx + int(id[len(id)-1])
@@ -591,25 +591,34 @@ func runHBatch(edgesF, walksF, resF string, par, lanes, maxCases int) {
 			}
 		}
 	}
-	if walksF != "" { // TLC -simulate: edges in walk order; a walk starts at the initial state
-		g, err := vh.LoadEdges(walksF)
+	if walksF != "" { // TLC -simulate (GlobalHandlesSim): one line per walk = its actions and the expectation after each
+		wb, err := os.ReadFile(walksF)
 		vh.Must(err)
-		var cur []json.RawMessage
-		prev := ""
-		for _, e := range g.Edges {
-			f := vh.Canon(e.From)
-			if f == g.Init {
-				cur = nil
-			} else if f != prev {
-				cur, prev = nil, ""
-				res.Count("walk_edges_unchained", 1)
+		for _, ln := range strings.Split(string(wb), "\n") {
+			if strings.TrimSpace(ln) == "" {
 				continue
 			}
-			cur = append(cur, e.Act)
-			prev = vh.Canon(e.To)
-			acts, err := hDecodeActs(cur)
+			var w struct {
+				Acts []json.RawMessage `json:"acts"`
+				Exps []json.RawMessage `json:"exps"`
+			}
+			vh.Must(json.Unmarshal([]byte(ln), &w))
+			acts, err := hDecodeActs(w.Acts)
 			vh.Must(err)
-			add("walk", acts, e.To)
+			for n := 1; n <= len(acts) && n <= len(w.Exps); n++ {
+				if n < len(acts) && n%3 != 0 { // every third prefix and the complete walk
+					continue
+				}
+				seen := false
+				for _, a := range acts[:n] {
+					seen = seen || a.Op == "Install"
+				}
+				if !seen {
+					continue
+				}
+				wrapped, _ := json.Marshal(map[string]json.RawMessage{"exp": w.Exps[n-1]})
+				add("walk", acts[:n:n], wrapped)
+			}
 		}
 	}
 	if maxCases > 0 && len(cases) > maxCases {
